@@ -10,6 +10,9 @@ Checked per scenario (trace checkers + a small close state machine for the expec
   * a close frame sent in response to the peer's carries the peer's code;
   * TCP torn down within 5 s (+eps) after both close frames were exchanged / after
     tornado's own close with a silent peer; always torn down by the end of the scenario;
+  * "once both sides have closed": when both close frames have been exchanged within the
+    closing timeout and nothing delays tornado's reader, the teardown happens at that very
+    virtual instant (no timer may have to fire first), whichever side closed first;
   * close notification (on_close / None message) exactly once, with the peer's code and
     reason when its close frame was received;
   * write_message after close()/after the notification raises WebSocketClosedError;
@@ -40,7 +43,9 @@ META = {
                   "on_message pending while the peer closes or disconnects, ping interval/timeout with pongs before/at/"
                   "after the deadline, repeated closes) are enumerated for both roles; the 5 s closing timeout and all "
                   "ping timers run on the virtual clock.",
-    "level_note": "Deadlines are upper bounds only (statement gives no lower bound). Close frames with a 1-byte payload, "
+    "level_note": "Deadlines are upper bounds only (statement gives no lower bound): 5 s after tornado's close for a "
+                  "silent peer, and the instant of the second close frame (+1 ms virtual, i.e. without any timer firing) "
+                  "when both sides have closed and tornado's reader is not held up by the application. Close frames with a 1-byte payload, "
                   "an invalid status code or frames after the peer's close are UNSPECIFIED for code/reason values. "
                   "Teardown is observed as EOF on the peer socket, so peers disconnect by half-close where teardown is "
                   "checked.",
@@ -54,6 +59,7 @@ FLOORS = {"quick": 1200, "thorough": 20000}
 ASSUMPTIONS = ["virtual loop over AF_UNIX: a frame/EOF becomes readable at the instant tornado writes/closes",
                "eps = 1 ms virtual"]
 REQUIRED_COUNTERS = ["oracle_evals", "teardown_checked", "echo_checked", "notify_checked", "write_after_close_checked",
+                     "prompt_teardown_checked/tornado-closed-first", "prompt_teardown_checked/peer-closed-first",
                      "timeout_path_scenarios", "ping_timeout_closes", "disconnect_scenarios"]
 EPS = 1e-3
 TIMEOUT = 5.0
@@ -649,6 +655,18 @@ def judge(case, run: Run, finished_by_harness, conn_codes, ctx):
                 ctx.check(tp.eof_time <= deadline, "teardown/late/" + ctxname,
                           "TCP connection torn down later than the 5 s closing timeout allows",
                           {**wit, "deadline": deadline})
+            # "once both sides have closed": both close frames exchanged inside the closing timeout, the peer's was
+            # readable and well-formed and the application does not hold up tornado's reader => tornado has seen the
+            # second close frame at max(tA, tB) and must tear down at that instant, not when the 5 s timer fires.
+            if (tA is not None and tB is not None and readable and specified_payload and not run.blocked
+                    and not run.junk_after_close and tB <= tA + TIMEOUT - EPS):
+                who = ("tornado-closed-first" if pc["tornado_close_before"] or pc["local_close_before"]
+                       else "peer-closed-first")
+                ctx.count("prompt_teardown_checked/" + who)
+                both = max(tA, tB)
+                ctx.check(tp.eof_time <= both + EPS, "teardown/not-prompt-after-both-closed/" + who,
+                          "both sides had sent their close frame but the TCP connection was only torn down later "
+                          "(it waited for a timer)", {**wit, "both_closed_at": both, "late_by": tp.eof_time - both})
     else:
         ctx.count("teardown_unobservable")
     if closes and closes[0][1].payload[2:] == b"ping timed out":
